@@ -41,7 +41,14 @@ impl Engine for Crash {
         }
         let sw = SharedWriter::new(sink);
         let total = if c.opts.declare_total { Some(codec::declared_total(&pcm, c.front)) } else { None };
-        match guarded(|| codec::encode_full(sw.clone(), &pcm, &c.opts, c.front, &c.chunks, total, &[], 0, false)) {
+        let at_mark: std::rc::Rc<std::cell::RefCell<Option<RecWriter>>> = Default::default();
+        let encoded = {
+            let (slot, sink) = (at_mark.clone(), sw.clone());
+            codec::with_unfinalized_hook(Box::new(move || *slot.borrow_mut() = Some(sink.snapshot())), || {
+                guarded(|| codec::encode_full(sw.clone(), &pcm, &c.opts, c.front, &c.chunks, total, &[], 0, false))
+            })
+        };
+        match encoded {
             Err(p) => {
                 out.fails.push(Fail::panic("encode-panic", &p));
                 return out;
@@ -56,13 +63,19 @@ impl Engine for Crash {
             }
             Ok(Ok(())) => {}
         }
-        let rec = sw.snapshot();
+        let rec = at_mark.borrow_mut().take().unwrap_or_else(|| sw.snapshot());
         if rec.max_write > 0 {
             // the same (deterministic) encode into a sink that accepts every write in full: whatever
             // is held back at this moment, the two outputs must agree byte for byte as far as both go
             let sw_full = SharedWriter::new(RecWriter::new());
-            if let Ok(Ok(())) = guarded(|| codec::encode_full(sw_full.clone(), &pcm, &c.opts, c.front, &c.chunks, total, &[], 0, false)) {
-                let full = sw_full.snapshot();
+            let full_mark: std::rc::Rc<std::cell::RefCell<Option<RecWriter>>> = Default::default();
+            let r_full = {
+                let (slot, sink) = (full_mark.clone(), sw_full.clone());
+                codec::with_unfinalized_hook(Box::new(move || *slot.borrow_mut() = Some(sink.snapshot())), || {
+                    guarded(|| codec::encode_full(sw_full.clone(), &pcm, &c.opts, c.front, &c.chunks, total, &[], 0, false))
+                })
+            };
+            if let (Ok(Ok(())), Some(full)) = (r_full, full_mark.borrow_mut().take()) {
                 let n = rec.data.len().min(full.data.len());
                 if rec.data[..n] != full.data[..n] {
                     let at = rec.data.iter().zip(&full.data).position(|(a, b)| a != b);
